@@ -1,9 +1,9 @@
 package main
 
 import (
+	"fmt"
 	"go/types"
 	"os"
-	"fmt"
 	"strings"
 
 	"golang.org/x/tools/go/ssa"
